@@ -2,6 +2,8 @@ import Ndt.Driver.Proto
 import Ndt.Model.Dea3
 import Ndt.Model.Richardson
 import Ndt.Model.Rule
+import Ndt.Model.Fornberg
+import Ndt.Model.FdDerivative
 /-! The line-protocol driver: one operation per input line, one output line per input line. -/
 namespace Ndt.Driver
 open Ndt.Proto Ndt.Gen
@@ -26,8 +28,32 @@ def cxs : List String → List (Cx Rat)
   | _ => []
 def cxStr (z : Cx Rat) : String := s!"{ratStr z.re} {ratStr z.im}"
 
+def rowsStr {α} (f : α → String) (rows : List (List α)) : String :=
+  " | ".intercalate (rows.map (fun r => joinSp (r.map f)))
+
 def handle (w : List String) : String :=
   match w with
+  -- fdw n x0 x…  (Float, bit patterns): fd_weights_all(x, x0, n)
+  | "fdw" :: n :: x0 :: xs =>
+    match fdWeightsAll (floats xs) (fb x0) n.toNat! with
+    | some rows => rowsStr toHex rows
+    | none => "ValueError"
+  | "fdwq" :: n :: x0 :: xs =>
+    match fdWeightsAll (rats xs) (rq x0) n.toNat! with
+    | some rows => rowsStr ratStr rows
+    | none => "ValueError"
+  -- fdstores numX n m: the stores of fd_derivative in program order
+  | ["fdstores", numX, n, m] =>
+    joinSp ((fdStores numX.toNat! n.toNat! m.toNat!).map (fun s => s!"{s.idx}:{s.lo}:{s.hi}:{s.c}"))
+  -- fdderq n m | fx… | x…  (Rat)
+  | "fdderq" :: n :: m :: rest =>
+    match splitBar rest with
+    | [_, fx, x] =>
+      match fdDerivative (rats fx) (rats x) n.toNat! m.toNat! with
+      | .ok du => joinSp (du.map ratStr)
+      | .valueError => "ValueError"
+      | .indexError => "IndexError"
+    | _ => "bad-op"
   -- logrule method n order: every translated decision property of LogRule
   | ["logrule", m, n, o] =>
     let r : LogRule := ⟨n.toNat!, Method.ofString m, o.toNat!⟩
